@@ -42,6 +42,10 @@ type GenOpts struct {
 	// probability (in worlds whose pending pods mount volumes) that one Get of a PersistentVolumeClaim / PersistentVolume /
 	// StorageClass issued during the pass fails once: the lookups of Provisioner.Validate and of the volume topology
 	GetFaults float64
+	// probability that an unmanaged node carries no zone label (a zonal volume is then not reachable from it)
+	ZonelessUnmanaged float64
+	// probability that a daemonset declares its resources as limits only (no requests stanza)
+	DaemonLimitsOnly float64
 	Existing   float64 // probability scale for existing nodes
 	Reserved   bool    // generate reserved offerings and enable the feature gate
 	Limits     float64 // probability that a pool has limits
@@ -507,6 +511,20 @@ func GenScenario(r *rand.Rand, o GenOpts) *Scenario {
 	}
 	if o.GetFaults > 0 && len(s.PVCs) > 0 && r.Float64() < o.GetFaults {
 		DecorateGetFault(r, s)
+	}
+	if o.ZonelessUnmanaged > 0 {
+		for i := range s.Nodes {
+			if s.Nodes[i].Pool == "" && r.Float64() < o.ZonelessUnmanaged {
+				s.Nodes[i].Zone = ""
+			}
+		}
+	}
+	if o.DaemonLimitsOnly > 0 {
+		for i := range s.DaemonSets {
+			if r.Float64() < o.DaemonLimitsOnly {
+				s.DaemonSets[i].LimitsOnly = true
+			}
+		}
 	}
 	return s
 }
